@@ -139,7 +139,7 @@ class C12(Prop):
     technique = ('run-time contract on the real JunctionTree (maximal_cliques, tree, mp_order, separator_axes, neighbors, elimination_order) '
                  'checked with set/union-find/BFS code over enumerated graphs x elimination orders')
     explanation = ('Bounded tier (labelled bounded, never counted as proved): JunctionTree(domain, cliques, order) of the tree under verification is constructed for every '
-                   'labelled graph on <= 5 attributes (given as its edge list under the identity naming and - for every graph on <= 4 attributes, every 4th graph on 5 in quick, all in thorough - once more in a seeded '
+                   'labelled graph on <= 5 attributes (given as its edge list under the identity naming and - for every graph on <= 4 attributes, every 8th graph on 5 in quick, all in thorough - once more in a seeded '
                    'disguise: maximal cliques / mixed cover, permuted attribute order inside cliques, permuted domain order, seeded attribute sizes 1..4) x EVERY explicit '
                    'elimination order plus None and int (np.random seeded from the case); for every set of <= 4 cliques of size <= 3 on <= 4 attributes (greedy modes); for '
                    'every graph on 6 nodes up to isomorphism (networkx atlas, seeded labelling) and seeded clique sets on 6-7 attributes with seeded orders; thorough adds every '
@@ -155,7 +155,7 @@ class C12(Prop):
     assumptions = ['bounded: decided only on the enumerated graphs / orders; chordality of fill-in graphs and the max-weight spanning tree theorem are not proved',
                    'attribute sizes (which steer the greedy order modes) are seeded samples in 1..4',
                    'int mode explored for the seeded random streams only']
-    quick_budget_s = 80
+    quick_budget_s = 60
     thorough_budget_s = 1200
     exhaustive = {'quick': True, 'thorough': True}
 
@@ -192,8 +192,8 @@ class C12(Prop):
             for gi, edges in enumerate(graphs):
                 r = sub()
                 yield mk(attrs, edges, dict(perms='all', ints=[1, 3], none=True), r, tag=tag + '-edges')
-                if n == 5 and quick and gi % 4 != 1:
-                    continue            # quick: the disguised twin of every 4th 5-attribute graph only
+                if n == 5 and quick and gi % 8 != 1:
+                    continue            # quick: the disguised twin of every 8th 5-attribute graph only
                 dom, cl = disguise(r, attrs, edges)
                 yield mk(dom, cl, dict(perms='all', ints=[2], none=True), r, tag=tag + '-disguised')
 
